@@ -209,6 +209,10 @@ func (fc *fnCtx) box(st *State, v Val) Val {
 		sn := v.S.Short()
 		t := app("box_"+sn, v.T)
 		st.pc = append(st.pc, eq(app("unbox_"+sn, t), v.T))
+		if v.S == SSlice {
+			// the identity of a boxed slice (an array_ value) is its backing array
+			st.pc = append(st.pc, eq(app("atime", t), app("atime", app("sl_arr", v.T))), not(eq(t, "nil")))
+		}
 		return Val{T: t, S: SU, GT: v.GT}
 	}
 	fc.unsupported("cannot box sort %s", v.S.Short())
@@ -594,7 +598,7 @@ func (fc *fnCtx) callWrites(st *State, fr *frame, call *ssa.Call, inLoop func(ss
 		}
 		return
 	}
-	spec, recv, args, _ := fc.calleeSpec(st, fr, call)
+	spec := fc.lookupSpec(call)
 	if spec == nil {
 		if callee := c.StaticCallee(); callee != nil && fc.e.inRepo(callee) && len(originOf(callee).Blocks) > 0 {
 			// inlined callee: scan its body conservatively
@@ -602,42 +606,77 @@ func (fc *fnCtx) callWrites(st *State, fr *frame, call *ssa.Call, inLoop func(ss
 		}
 		return
 	}
-	// evaluate modifies targets; arguments defined inside the loop give whole-region havoc
-	anyInside := false
-	if c.IsInvoke() && inLoop(c.Value) {
-		anyInside = true
-	}
-	for _, a := range c.Args {
-		if inLoop(a) {
-			anyInside = true
+	// receiver and arguments defined outside the loop can be evaluated now; the others are unknown
+	var recv *Val
+	var argVals []ssa.Value
+	if c.IsInvoke() {
+		if !inLoop(c.Value) {
+			r := fc.val(st, c.Value)
+			recv = &r
 		}
+		argVals = c.Args
+	} else if callee := c.StaticCallee(); callee != nil && callee.Signature.Recv() != nil && len(c.Args) > 0 {
+		if !inLoop(c.Args[0]) {
+			r := fc.val(st, c.Args[0])
+			recv = &r
+		}
+		argVals = c.Args[1:]
+	} else {
+		argVals = c.Args
 	}
 	for _, m := range spec.modifies {
 		locs := m.E.(*CallE).Args
 		for _, loc := range locs {
-			region, objExpr := fc.locRegion(st, loc, spec, recv, args)
+			region, objExpr := fc.locRegion(st, loc, spec, nil, nil)
 			if region == "" {
 				continue
 			}
-			if anyInside || objExpr == nil {
-				whole[region] = true
+			if objExpr == nil || strings.HasPrefix(region, "field:") || region == "*" || region == "map.*" {
+				if region == "*" {
+					for r := range fc.regionSort {
+						whole[r] = true
+					}
+				} else if region == "map.*" {
+					whole["map.dom"], whole["map.get"], whole["map.card"] = true, true, true
+				} else {
+					for r := range fc.regionSort {
+						if strings.HasSuffix(r, "."+strings.TrimPrefix(region, "field:")) {
+							whole[r] = true
+						}
+					}
+				}
 				continue
 			}
 			func() {
 				defer func() {
 					if r := recover(); r != nil {
-						if _, ok := r.(specError); ok {
+						switch r.(type) {
+						case specError, translateError:
 							whole[region] = true
 							return
 						}
 						panic(r)
 					}
 				}()
-				sc := fc.calleeCtx(st, spec, m.params, recv, args, nil)
+				sc := &specCtx{fc: fc, st: st, heap: st.heap, now: st.now, vars: map[string]Val{}, params: map[string]Val{}}
+				if i := strings.Index(spec.key, "."); i >= 0 {
+					sc.pkg = spec.key[:i]
+				}
+				if recv != nil {
+					sc.vars["this"] = *recv
+				}
+				for i, p := range m.params {
+					if i < len(argVals) && !inLoop(argVals[i]) {
+						sc.params[p] = fc.val(st, argVals[i])
+					}
+				}
 				obj := sc.eval(objExpr)
 				t := obj.T
 				if obj.S == SSlice {
 					t = app("sl_arr", obj.T)
+					if region == "M.view" {
+						region, _ = elemsRegion(SU)
+					}
 				}
 				precise(region, t)
 			}()
@@ -1435,7 +1474,9 @@ func (fc *fnCtx) typeAssert(st *State, fr *frame, ins *ssa.TypeAssert) {
 	x := fc.val(st, ins.X)
 	target := ins.AssertedType
 	var okT string
-	if types.IsInterface(target) && !isTypeParam(target) {
+	if types.IsInterface(target) && !isTypeParam(target) && types.Identical(ins.X.Type(), target) {
+		okT = not(eq(x.T, "nil"))
+	} else if types.IsInterface(target) && !isTypeParam(target) {
 		// interface target: succeeds iff non-nil and dynamic type implements it
 		if emptyIface(target) {
 			okT = not(eq(x.T, "nil"))
